@@ -114,7 +114,7 @@ func init() {
 }
 
 var ctxKeyVocab = []string{"k0", "k1", "lang"}
-var collectKinds = []string{"", "", "CollectMap", "SanitizeMapAndCollect", "Collect", "CollectList", "SanitizeListAndCollect"}
+var collectKinds = []string{"", "", "CollectMap", "SanitizeMapAndCollect", "Collect", "CollectList", "SanitizeListAndCollect", "drain"}
 
 // dupCtx passes one of the call's context keys a second time with another value: the later one counts.
 func dupCtx(r *Rng, op *Op) {
